@@ -10,6 +10,9 @@ use std::sync::mpsc::{channel, Receiver, RecvTimeoutError};
 use std::time::{Duration, Instant};
 
 fn build(target: &str, hooked: bool) -> Result<PathBuf, String> {
+    if std::env::var("VERIF_SHADOW").map(|v| v == "1").unwrap_or(false) {
+        return Err("shadow run: in-process parts only".into());
+    }
     let root = crate::ev::root();
     let dir = format!("{}/.target/{}", root, target);
     let log = format!("{}/.work/build-{}.log", root, target);
